@@ -621,6 +621,16 @@ def run_scalar_bit(chk, A):
         for k_, y in emit.ex.items():
             if y["k"] == "mcall" and y.get("obj") is not None and (emit.e(emit.strip(y["obj"])) or {}).get("did") == did:
                 used.add(y.get("cn"))
+            elif y["k"] == "call" and y.get("args"):
+                # the SizeOp handed to a unit-local helper (`add_size_op(opcode, size_op)`): what the helper packs of its parameter counts
+                for pi, a in enumerate(y["args"]):
+                    if (emit.e(emit.strip(a)) or {}).get("did") == did:
+                        for hk, h in A["helpers"].items():
+                            if h.name == y.get("callee") and pi < len(h.params):
+                                pd = h.params[pi]["did"]
+                                for z in h.ex.values():
+                                    if z["k"] == "mcall" and z.get("obj") is not None and (h.e(h.strip(z["obj"])) or {}).get("did") == pd:
+                                        used.add(z.get("cn"))
         if not (used & {"q", "qs", "size", "scalar"}):
             continue
         sites.append((i, tuple(regs), fld or vo.get(const), scalar_rows, used))
@@ -639,5 +649,5 @@ def run_scalar_bit(chk, A):
                detail="the shapes accepted here include scalar registers (%s) and another branch of the same case packs the scalar bit, but here "
                       "only %s of the SizeOp are packed: a scalar operand is encoded as the vector form (bit 28 clear)" %
                       (", ".join(scalar_rows)[:80], sorted(used & {"q", "size"})), key="scalarbit|%d" % emit.line_of(i))
-    chk.floor(R + ":sites", n, 5)
+    chk.floor(R + ":sites", n, 3)
     return n
